@@ -338,7 +338,7 @@ def part_js(sh, res):
                 c['pieces'] = [text.encode().hex()]
             batch.append(c)
             meta.append((text, pol, None, mode + ':io'))
-    for hexdata in ('612cff0a', 'ff'):
+    for hexdata in ('612cff0a', 'ff', '612c620ac3', '612c620ae282', 'c3', '610ac3'):      # incl. input truncated inside a multibyte character right after the last line break
         for mode in ('bulk', 'stream'):
             c = {'op': 'read', 'mode': mode, 'encoding': 'utf-8', 'dlm': ',', 'policy': 'simple', 'has_header': False, 'comment_prefix': None}
             if mode == 'bulk':
